@@ -1,11 +1,12 @@
 (* C17 — Exec hands the terminal over cleanly (control half): while the external command runs the
    renderer's ticker has been stopped (handshake) and the read loop is not reading, signals are
    ignored and the terminal is in its restored state; afterwards ticker and reader run again. *)
-From Coq Require Import List Bool NArith Arith.
+From Coq Require Import List Bool NArith Arith String.
 Import ListNotations.
 From BT Require Import Model.Skel Model.SkelTie Proof.SkelCert Proof.SkelProofs.
 
-Theorem C17_tie : G = guards_of_gen /\ g_release_stops_reader G = true /\ g_release_stops_renderer G = true /\ g_release_ignores G = true.
+Theorem C17_tie : G = guards_of_gen /\ g_release_stops_reader G = true /\ g_release_stops_renderer G = true /\ g_release_ignores G = true /\
+  shapes_ok_for ["exec"; "waitForReadLoop"; "initCancelReader"; "standardRenderer.start"; "standardRenderer.stop"; "standardRenderer.listen"]%string = true.
 Proof. vm_compute. repeat split. Qed.
 Print Assumptions C17_tie.
 
